@@ -8,6 +8,7 @@ CODES = ['p', 'q', 'i', 'm']
 FIELD = {
     'p': ('u8', None),
     'q': ('Mod4', None),
+    'f': ('u8', {'ignore': False}),         # explicitly not ignored (`ignore = false`, `ignore(false)`, `Trait = true`)
     'n': ('Nan', None),                   # non-reflexive == (like a float NaN): a == a must follow the field
     'i': ('u8', {'ignore': True}),
     'm': ('u8', {'method': 'eq_le'}),
@@ -195,6 +196,10 @@ def gen(tier, seed, sp_factory=None):
     # gated on "no custom method" is still exercised
     for sh in IRREFLEXIVE_SHAPES:
         mods.append(emit(build(sh, 'PartialEq', False), f'm{len(mods):04d}', f'{S.shape_id(sh)}/carrier=PartialEq/irreflexive field', irreflexive=True))
+    for k, sh in enumerate(NOTIGN_SHAPES):
+        for j in range(3):
+            car = ['PartialEq', 'Eq'][(k + j) % 2]
+            mods.append(emit(build(sh, car, car == 'Eq'), f'm{len(mods):04d}', f'{S.shape_id(sh)}/carrier={car}/explicitly not ignored #{j}', sp=Spelling(force={'notignoreform': j})))
     for k, sh in enumerate(BOTH_SHAPES):
         car = ['PartialEq', 'Eq', 'PartialEq'][k]
         mods.append(emit(build(sh, car, car == 'Eq'), f'm{len(mods):04d}', f'{S.shape_id(sh)}/carrier={car}/ignore+method on one field'))
@@ -205,6 +210,10 @@ def gen(tier, seed, sp_factory=None):
     return mods
 
 
+NOTIGN_SHAPES = [
+    ('struct', [('named', ['f', 'i', 'p'])]),
+    ('enum', [('tuple', ['f', 'f']), ('named', ['i', 'f']), ('unit', [])]),
+]
 BOTH_SHAPES = [
     ('struct', [('named', ['p', 'x', 'p'])]),
     ('struct', [('tuple', ['x', 'q'])]),
